@@ -76,10 +76,13 @@ def auto_summarise(I, st, env, rng):
             for x in v.entries.values():
                 scan(x, depth + 1)
 
+    outer_models = set()
     e_ = env
     while e_ is not None:
         for v_ in e_.vars.values():
             scan(v_)
+            if type(v_).__name__ == "LpModel":
+                outer_models.add(id(v_))
         e_ = e_.parent
 
     def body_at(i):
@@ -95,7 +98,7 @@ def auto_summarise(I, st, env, rng):
         saved = {lid: list(v) for lid, (v, _) in outer_lists.items() if isinstance(v, list)}
         I.assign_target(st.target, rng.item(i), senv)
         ctx.merge_mode += 1
-        frame = {"arrs": outer_arrs, "objs": outer_objs, "writes": [], "reads": set()}
+        frame = {"arrs": outer_arrs, "objs": outer_objs, "writes": [], "reads": set(), "models": outer_models}
         ctx.loop_capture.append(frame)
         try:
             I.exec_block(st.body, senv)
@@ -108,6 +111,8 @@ def auto_summarise(I, st, env, rng):
         finally:
             ctx.merge_mode -= 1
             ctx.loop_capture.pop()
+        for n_, (mdl, item) in enumerate(frame.get("model_adds", [])):
+            captured[("m", id(mdl), n_)] = (mdl, item)
         item_t = rng.item(i)
         item_t = item_t.t if isinstance(item_t, Sym) else item_t
         for (arr, idx, val) in frame["writes"]:
@@ -161,6 +166,16 @@ def auto_summarise(I, st, env, rng):
 
     lo_t = ops.as_int_term(rng.start) if rng.arr is None else None
     for key_, elem_probe in list(probe.items()):
+        if isinstance(key_, tuple) and key_[0] == "m":
+            mdl, item = elem_probe
+            nm = None
+            if isinstance(item, tuple):
+                item, nm = item[0], (item[1] if len(item) > 1 else None)
+            from .values import LpConstraint
+            if not isinstance(item, LpConstraint) or not pure_probe:
+                raise Unsupported("summarised loop adds something other than a plain constraint to the model")
+            mdl.families.append((cnt_t, k.t, item.formula, nm))
+            continue
         if not (isinstance(key_, tuple) and key_[0] == "w"):
             continue
         arr = outer_arrs[key_[1]]
@@ -208,6 +223,8 @@ def auto_summarise(I, st, env, rng):
             e.vars[name] = new
     for name in temporaries:
         if name in env.vars and id(env.vars[name]) not in outer_lists:
+            if type(env.vars[name]).__name__ == "LpModel":
+                continue  # `model += ...` extends the same object in place
             env.vars[name] = Opaque(f"value of '{name}' after a summarised loop")
     ctx.notes.append(f"map-loop summarised at line {st.lineno}")
 
